@@ -48,6 +48,15 @@ theorem safe_subAssignRef (a b : Container) (ha : a.store.Inv) (hb : b.store.Inv
   ⟨Store.safe_subAssignRef _ _ ha hb,
    safe_ensureCorrectStore _ (Store.subAssignRef_spec bKernel a.store b.store ha hb).1⟩
 
+theorem safe_andAssignOwned (a b : Container) (ha : a.store.Inv) (hb : b.store.Inv) : Safe_andAssignOwned a b :=
+  ⟨Store.safe_andAssignRef _ _ ha hb,
+   safe_ensureCorrectStore _ (Store.andAssignOwned_spec bKernel a.store b.store ha hb).1⟩
+
+theorem inv_andAssignOwned (a b : Container) (ha : a.store.Inv) (hb : b.store.Inv) : (a.andAssignOwned b).store.Inv :=
+  Store.canon_inv _ (ensureCorrectStore_spec _ (Store.andAssignOwned_spec bKernel a.store b.store ha hb).1).1
+
+theorem inv_new (k : Nat) : (Container.new k).store.Inv := ⟨List.Pairwise.nil, fun _ h => by cases h⟩
+
 theorem inv_andAssignRef (a b : Container) (ha : a.store.Inv) (hb : b.store.Inv) : (a.andAssignRef b).store.Inv :=
   Store.canon_inv _ (ensureCorrectStore_spec _ (Store.andAssignRef_spec bKernel a.store b.store ha hb).1).1
 
@@ -136,6 +145,70 @@ theorem safe_tryMultiSub {ε : Type} (xs : List (Except ε Bitmap)) (hx : ∀ r,
     exact safe_assignLoop safe_subAR storesInv_subAssignRef iter lhs (hx lhs (List.mem_cons_self ..))
       (fun r h => hx r (List.mem_cons_of_mem _ h))
 
+theorem storesInv_andOwnedStep (st : List Container × List Container) (cont : Container)
+    (h1 : StoresInv st.1) (h2 : StoresInv st.2) (hc : cont.store.Inv) :
+    StoresInv (andOwnedStep st cont).1 ∧ StoresInv (andOwnedStep st cont).2 := by
+  unfold andOwnedStep
+  rcases hsr : Bitmap.search st.2 cont.key with ⟨found, loc⟩
+  cases found with
+  | false => exact ⟨h1, h2⟩
+  | true =>
+    show StoresInv (match st.2[loc]? with
+      | some rc =>
+        if (!(cont.andAssignOwned rc).isEmpty) = true then
+          (cont.andAssignOwned rc :: st.1, st.2.set loc (Container.new rc.key))
+        else (st.1, st.2.set loc (Container.new rc.key))
+      | none => st).1 ∧ StoresInv (match st.2[loc]? with
+      | some rc =>
+        if (!(cont.andAssignOwned rc).isEmpty) = true then
+          (cont.andAssignOwned rc :: st.1, st.2.set loc (Container.new rc.key))
+        else (st.1, st.2.set loc (Container.new rc.key))
+      | none => st).2
+    cases hrc : st.2[loc]? with
+    | none => exact ⟨h1, h2⟩
+    | some rc =>
+      have hrcI := h2 rc (List.mem_of_getElem? hrc)
+      have hset : StoresInv (st.2.set loc (Container.new rc.key)) := by
+        intro c hc'
+        rcases List.mem_or_eq_of_mem_set hc' with h | h
+        · exact h2 c h
+        · exact h ▸ Container.inv_new _
+      simp only []
+      by_cases hemp : (!(cont.andAssignOwned rc).isEmpty) = true
+      · rw [if_pos hemp]
+        refine ⟨?_, hset⟩
+        intro c hc'
+        rcases List.mem_cons.1 hc' with h | h
+        · exact h ▸ Container.inv_andAssignOwned cont rc hc hrcI
+        · exact h1 c h
+      · rw [if_neg hemp]
+        exact ⟨h1, hset⟩
+
+theorem safe_andOwnedLoop : ∀ (cs : List Container) (st : List Container × List Container),
+    StoresInv cs → StoresInv st.1 → StoresInv st.2 →
+      Safe_andOwnedLoop cs st ∧ StoresInv (cs.foldl andOwnedStep st).1
+  | [], st, _, h1, _ => ⟨by unfold Safe_andOwnedLoop; trivial, h1⟩
+  | cont :: cs, st, hcs, h1, h2 => by
+    have hc := hcs cont (List.mem_cons_self ..)
+    have hstep := storesInv_andOwnedStep st cont h1 h2 hc
+    have ih := safe_andOwnedLoop cs (andOwnedStep st cont) (fun c h => hcs c (List.mem_cons_of_mem _ h)) hstep.1 hstep.2
+    unfold Safe_andOwnedLoop
+    exact ⟨⟨safe_searchStep st.2 cont fun rc hrc => Container.safe_andAssignOwned cont rc hc (h2 rc hrc), ih.1⟩, ih.2⟩
+
+theorem safe_andAO (a b : Bitmap) (ha : StoresInv a) (hb : StoresInv b) : Safe_andAO a b := by
+  unfold Safe_andAO
+  split
+  · exact (safe_andOwnedLoop b ([], a) hb (fun _ h => by cases h) ha).1
+  · exact (safe_andOwnedLoop a ([], b) ha (fun _ h => by cases h) hb).1
+
+theorem storesInv_andAssignOwned (a b : Bitmap) (ha : StoresInv a) (hb : StoresInv b) : StoresInv (andAssignOwned a b) := by
+  rw [andAssignOwned_eq_fold]
+  intro c hc
+  rw [List.mem_reverse] at hc
+  split at hc
+  · exact (safe_andOwnedLoop b ([], a) hb (fun _ h => by cases h) ha).2 c hc
+  · exact (safe_andOwnedLoop a ([], b) ha (fun _ h => by cases h) hb).2 c hc
+
 theorem mem_okValues {ε α : Type} {r : α} : ∀ {xs : List (Except ε α)}, Except.ok r ∈ xs → r ∈ okValues xs
   | [], h => by cases h
   | .error e :: rest, h => by
@@ -191,6 +264,17 @@ theorem safe_tryMultiAndRefWith {ε : Type} {sort : List Bitmap → List Bitmap}
   · next lhs rest he =>
     have hm := andStartWith_mem hs he
     exact safe_assignLoop safe_andAR storesInv_andAssignRef rest lhs (hx lhs hm.1)
+      (fun r hr => hx r (hm.2 r (mem_okValues hr)))
+  · trivial
+
+theorem safe_tryMultiAndOwnedWith {ε : Type} {sort : List Bitmap → List Bitmap} (hs : ∀ l, (sort l).Perm l) (h : Hint)
+    (xs : List (Except ε Bitmap)) (hx : ∀ b ∈ okValues xs, StoresInv b) : Safe_tryMultiAndOwnedWith sort h xs := by
+  unfold Safe_tryMultiAndOwnedWith
+  split
+  · trivial
+  · next lhs rest he =>
+    have hm := andStartWith_mem hs he
+    exact safe_assignLoop safe_andAO storesInv_andAssignOwned rest lhs (hx lhs hm.1)
       (fun r hr => hx r (hm.2 r (mem_okValues hr)))
   · trivial
 
